@@ -29,7 +29,7 @@ CLAIMED = {
  "C18": ("exploration",
    "deterministic simulation of call histories: after each parse call returns, the scheduler runs the remaining tasks to quiescence and its task table names every scanner task that is alive and disabled for ever",
    "Sequences of up to 200 parse calls (file, expression, globals, compile) execute inside one simulated process. The simulator owns the task table and the channel model, so 'the scanner has exited when the call returns' is decided exactly at quiescence - no goroutine-count polling, no sleeps. Both schedules that matter (scanner blocked in a send when the parser gives up; scanner not yet there) are forced. Exhaustive over every prefix of the corpus, seeded beyond. A second phase runs a sample of the same sequences on the un-instrumented build and searches the real runtime's goroutine dump for scanner frames once it has settled.",
-   "Trusts the channel enabledness model of verif/simrt (differentially tested against native channels) and that soy blocks only on channels (the instrumenter lists any sync.WaitGroup/Cond use as un-modelled).",
+   "Trusts the channel enabledness model of verif/simrt (differentially tested against native channels) and that soy blocks only on channels (mutexes, WaitGroup, Cond, select, timers and tickers are modelled too; what is not - context deadlines, signal.Notify - makes the check exit 2). A goroutine still asleep or polling one simulated hour after the call returned counts as left behind.",
    "DESIGN.md section 4 C18"),
  "C06": ("fault_enumeration",
    "fault-point enumeration under the simulator's step clock: for every run, a panic (four value kinds) at every invocation of a user function/directive, a writer error at every write, every catalogue misbehaviour at every lookup, reader faults at every byte offset; unbounded loops decided by step budget",
@@ -44,7 +44,7 @@ CLAIMED = {
  "C09": ("exploration",
    "seeded one-task-at-a-time scheduler over real goroutines with handoffs hidden from ThreadSanitizer (race-freedom), plus interleaving search (random/PCT/coarse/round-robin) against a run-alone output oracle",
    "Client tasks share one compiled bundle, data maps, Go struct values, *Renderer objects and a message bundle (a stateless stub or the repository's own PO-file bundle) and render, generate JS, compile and parse under a schedule drawn from the run's PRNG; yields sit before every statement of soy. The baton is handed over with channel operations the race detector is told to ignore, so the execution is serial and exactly replayable yet any pair of conflicting accesses soy does not order itself is reported - independent of the interleaving chosen - while the interleaving search feeds the second oracle (bytes equal the operation run alone). Sampling over bundles, operation mixes and schedules; a determinism slice re-executes units in fresh processes inside every run.",
-   "Trusts ThreadSanitizer and the Go memory model annotation of channels, go statements and sync; trusts that runtime.RaceDisable hides exactly the simulator's handoffs (self-tested: an unsynchronised shared append is reported in every execution, a mutex-protected one never). Channels, select, Mutex/RWMutex, Once and sync.Pool are modelled; WaitGroup.Wait and Cond.Wait inside soy are not (the instrumenter lists them).",
+   "Trusts ThreadSanitizer and the Go memory model annotation of channels, go statements and sync; trusts that runtime.RaceDisable hides exactly the simulator's handoffs (self-tested: an unsynchronised shared append is reported in every execution, a mutex-protected one never). Channels, select, Mutex/RWMutex, Once, WaitGroup, Cond, sync.Pool, sync.Map.Range, and the clock (time.Now/Sleep/After, timers, tickers; machine speed is a per-run knob) are modelled, none of them adding happens-before edges the real primitive lacks (self-tested); context deadlines, signal.Notify and reflect MapRange are not, and a tree that uses one makes the check exit 2. A race report is re-executed in up to three fresh processes.",
    "DESIGN.md section 3.3 and 4 C09"),
  "C10": ("exploration",
    "map-iteration-order seam: every range-over-map site of the placeholder naming pass is perturbed one at a time and all together with seeded, replayable order decisions; plus compile histories, context variants, sensitivity variants and a native cross-process comparison",
@@ -57,7 +57,7 @@ CLAIMED = {
    "Trusts the instrumenter to have rewritten every range-over-map (it reports counts and un-modelled order sources such as sync.Map.Range) and that orders produced by the seam are orders the Go runtime may produce (rotations of slot order for single-bucket maps, arbitrary for larger ones, by the language spec).",
    "DESIGN.md section 3.5 and 4 C13"),
  "C12": ("fault_enumeration",
-   "write-fault enumeration: for every generated render, one faulted run per write call index (sticky, transient, partial) and per byte capacity of the fault-free run, against a recording fault-injecting io.Writer",
+   "write-fault enumeration: for every generated render, one faulted run per write call index (sticky, transient, partial, full-count) and per byte capacity of the fault-free run, against a recording fault-injecting io.Writer in four shapes (plain, with Flush, with a Flush that reports the failure, with WriteString), through Renderer.Execute and Tofu.Render",
    "The failure point is enumerated exhaustively per case over every write call and every byte offset of the fault-free run (sampled only beyond 600 calls / 1024 bytes, counted separately), in sticky, transient and partial modes - transient faults are what exposes an ignored error that a later checked write would otherwise mask. Oracle: failed write => non-nil error; accepted bytes are a prefix; nil => complete output. Candidates are confirmed on freshly compiled bundles so that a history dependence (C08) cannot alarm here. Cases are seeded.",
    "Trusts the fault-free run on a fresh compile as reference output and the classification of write calls (entity / escaper chunk / raw text / value) used only for the reach probes.",
    "DESIGN.md section 4 C12"),
